@@ -20,7 +20,7 @@ RULE = ("ttl {1,1.5,4,3600,none} x delivery instant {E-1s,E-1us,E,E+1us,E+1s} x 
 ASSUMPTIONS = ["Redis and RabbitMQ are wire-level fakes", "virtual time; exact instants only at zero wire latency (redis polls priorities with 0.1 s sleeps, so its instants are approximate; the oracle uses the observed instants)",
                "with wire latency l the execution allowance after E is 2l + 0.35 s"]
 EVAL_COUNTER = "messages_judged"
-REQUIRED = ["messages_judged", "executed_live", "dead_lettered_expired", "dead_retrieved", "boundary_exact", "kind_retry_cross", "kind_retry_late", "kind_resched", "priority_high", "priority_low", "timezone_offset_runs", "arrivals_at_a_waiting_consumer"]
+REQUIRED = ["messages_judged", "executed_live", "dead_lettered_expired", "dead_retrieved", "boundary_exact", "kind_retry_cross", "kind_retry_late", "kind_resched", "priority_high", "priority_low", "timezone_offset_runs", "arrivals_at_a_waiting_consumer", "mixed_queue_messages"]
 CASE_TIMEOUT = 120
 
 TTLS = [1.0, 1.5, 4.0, 3600.0, 90000.0, 172800.0, None]
@@ -59,6 +59,11 @@ def gen_cases(tier, seed):
                 for d in ((-0.4, 0.3, 1.2) if tier == "quick" else (-0.4, -0.001, 0.001, 0.3, 1.2, 2.6)):
                     cases.append({"broker": broker, "latency": None if broker == "mem" else 0.004, "seed": rnd.randrange(10**6), "phase": rnd.choice([0.0, 0.25, 0.5, 0.999]),
                                   "ttl": ttl, "kind": kind, "delta": d})
+    # expired and live messages side by side in one queue and priority: each is judged on its own time-to-live
+    for broker in ("mem", "redis", "rabbit"):
+        for i in range(3 if tier == "quick" else 12):
+            cases.append({"broker": broker, "kind": "mixed", "ttl": None, "delta": 0.0, "latency": None if broker == "mem" else 0.004, "seed": rnd.randrange(10**6), "phase": 0.0,
+                          "n": rnd.choice([3, 5, 9, 14]), "tl": rnd.choice([1, 3, 1000])})
     # the same property on a machine whose local time is not UTC (timestamps are naive local datetimes)
     for tz in ("AAA-5", "BBB5", "CCC-0:30"):
         for mode in ("live_recurring", "expired_after_reschedule"):
@@ -304,6 +309,60 @@ async def scenario(loop, case, out, stats, fps, samples):
         await w.close()
 
 
+async def mixed_scenario(loop, case, out, stats, fps):
+    """One queue, one priority, a random sequence of messages that are long expired, alive for another day, or without any
+    time-to-live: the expired ones are dead-lettered and never run, every other one runs."""
+    from repid.message import MessageCategory
+    from rv.wl import World, run_worker
+
+    broker = case["broker"]
+    rnd = random.Random(case["seed"])
+    w = World(loop, broker, converter="basic", seed=case["seed"], latency=case["latency"])
+    try:
+        await w.open()
+        r = w.router()
+        w.scripted_actor(r, "act")
+        await w.conn.message_broker.queue_declare("default")
+        loop.jump(3600.0 + 1.37)
+        kinds = {}
+        for i in range(case["n"]):
+            k = rnd.choice(["expired", "alive", "none"]) if i else "expired"  # (an expired one always leads)
+            id_ = f"x{i:02d}"
+            kinds[id_] = k
+            job = w.job("act", id_, {"do": "ok", "d": 0.01}, ttl=None if k == "none" else timedelta(seconds=2 if k == "expired" else 86400), timeout=timedelta(seconds=30), store_result=False)
+            if k == "expired":
+                job.timestamp = datetime.now() - timedelta(seconds=rnd.choice([3, 600, 3000]))  # built long before it is enqueued
+            await job.enqueue()
+        worker = w.worker([r], tasks_limit=case["tl"], graceful_shutdown_time=3.0, handle_signals=[__import__("signal").SIGUSR1])
+        want_runs = {i for i, k in kinds.items() if k != "expired"}
+        info = await run_worker(w, worker, until=lambda: {e["id"] for e in w.events("actor_end")} >= want_runs, horizon=6.0 + 0.3 * case["n"], poll=0.25)
+        if info["exc"] is not None or not info["returned"]:
+            out.append(V("worker_died", broker, "run", f"{info}"))
+        await asyncio.sleep(0.3)
+        started = {e["id"] for e in w.events("actor_start")}
+        snap = w.rig.snapshot()
+        for id_, k in kinds.items():
+            stats["messages_judged"] += 1
+            stats["mixed_queue_messages"] += 1
+            if k == "expired":
+                if id_ in started:
+                    out.append(V("expired_executed", broker, "mixed", f"{id_} (expired before it was enqueued) was executed; queue {list(kinds.values())}"))
+                elif snap.get(id_) == ["dead"]:
+                    stats["dead_lettered_expired"] += 1
+                elif snap.get(id_) != ["waiting"]:
+                    # (still waiting = the worker was stopped before it came to look at it: Redis weeds out one per polling round)
+                    out.append(V("expired_not_dead_lettered", broker, "mixed", f"{id_} (expired) is at {snap.get(id_)}; queue {list(kinds.values())}"))
+            else:
+                if id_ not in started:
+                    out.append(V("live_dead_lettered" if snap.get(id_) == ["dead"] else "live_not_delivered", broker, "mixed", f"{id_} ({'no ttl' if k == 'none' else 'ttl 1 day'}) behind expired messages was never executed; it is at {snap.get(id_)}; queue {list(kinds.values())}"))
+                else:
+                    stats["executed_live"] += 1
+        fps.add(f"{broker}/mixed/{case['n']}/{case['tl']}/{','.join(v[0] for v in kinds.values())}")
+        stats["unknown_server_commands"] += w.rig.unknown_commands()
+    finally:
+        await w.close()
+
+
 async def tz_scenario(loop, case, out, stats, fps):
     """Local time zone with a non-zero UTC offset: the time-to-live of a rescheduled message still counts from its
     rescheduling, in the same clock the expiry test uses. Only public API, no arithmetic on the harness epoch."""
@@ -380,7 +439,10 @@ def run_case(case):
         if res.exc is not None:
             out.append(V("harness_or_api_error", "mem", "tz", f"{type(res.exc).__name__}: {res.exc}"))
         return {"fp": None, "fps": sorted(fps), "viol": out[:8], "stats": dict(stats)}
-    res = vl.run(lambda loop: scenario(loop, case, out, stats, fps, samples), max_steps=3_000_000, seed=case["seed"])
+    if case.get("kind") == "mixed":
+        res = vl.run(lambda loop: mixed_scenario(loop, case, out, stats, fps), max_steps=3_000_000, seed=case["seed"])
+    else:
+        res = vl.run(lambda loop: scenario(loop, case, out, stats, fps, samples), max_steps=3_000_000, seed=case["seed"])
     if res.exc is not None:
         out.append(V("harness_or_api_error", case["broker"], "scenario", f"{type(res.exc).__name__}: {res.exc}"))
     if stats.get("unknown_server_commands"):
